@@ -3,13 +3,15 @@ from .extract import _Keep
 
 
 class LoopSpec(_Keep):
-    def __init__(self, inv, havoc=(), concrete=None, index=None, modifies=(), label=None):
+    def __init__(self, inv, havoc=(), concrete=None, index=None, modifies=(), label=None, havoc_as=None):
         self.inv = list(inv)            # spec expression strings
         self.havoc = list(havoc)        # extra local names to havoc
         self.modifies = list(modifies)  # lvalue expression strings (objects / fields) to havoc
         self.concrete = concrete        # {name: fn(env)->iterable of concrete values}
         self.index = index              # name of ghost index for `for` loops
         self.label = label
+        self.havoc_as = dict(havoc_as or {})   # {name: fn(interp)->value}: shape of a local at an arbitrary iteration
+                                               # when it differs from its shape at loop entry (e.g. None -> list)
 
 
 class Canary(_Keep):
